@@ -138,13 +138,13 @@ def coq_term(case, out):
     if "panic" in out:
         return None
     if case["op"] == "seq":
-        fn = "mh_accept32" if case["f"] == "f32" else "mh_accept64"
-        return " ++ ".join("(%s %d %d %d %d %d)" % ((fn,) + t[:5]) for t in seq_terms(case, out))
+        fn = "mh_step32" if case["f"] == "f32" else "mh_step64"
+        return " ++ ".join("(%s %s %s %d %d %d %d %d)" % ((fn, C.z(t[5]), C.z(t[6])) + t[:5]) for t in seq_terms(case, out))
     if case["op"] != "step":
         return None
     a, b, c, d = terms(case)
-    fn = "mh_accept32" if case["f"] == "f32" else "mh_accept64"
-    return "%s %d %d %d %d %d" % (fn, a, b, c, d, out["lnu"])
+    fn = "mh_step32" if case["f"] == "f32" else "mh_step64"
+    return "%s %s %s %d %d %d %d %d" % (fn, C.z(case["x"]), C.z(case["y"]), a, b, c, d, out["lnu"])
 
 
 def compare(case, out, model):
@@ -158,12 +158,12 @@ def compare(case, out, model):
             want_before = st.get("set_x", prev)
             if o["before"] != want_before:
                 return "step %d starts from state %d, expected %d" % (k, o["before"], want_before)
-            exp = t[6] if m == 1 else t[5]
+            exp = m
             if o["new"] != exp:
                 return "sequence step %d: state after step is %d, Flocq model of the decision gives %d" % (k, o["new"], exp)
             prev = o["new"]
         return None
-    exp = case["y"] if model == [1] else case["x"]
+    exp = model[0]
     if out["new"] != exp:
         return "state after step is %d, Flocq model of the decision gives %d" % (out["new"], exp)
     if out["len"] != 1:
